@@ -756,6 +756,10 @@ const COHERENCE_TYPES: &[(&str, &str, &[&str], bool, bool)] = &[
     ("tuple-int-str", "(int, str)", &["(1, \"a\")", "(1, \"b\")", "(0, \"z\")", "(1, \"a\" + \"\")", "(2, \"\")", "(1, \"añbc\".get(0))"], true, true),
     ("seq-float", "Sequence<float>", &["[0.0]", "[-0.0]", "cast<Sequence<float>>([])", "[1.5, 0.0]", "[1.5, -0.0]", "[1.5]"], false, true),
     ("seq-int", "Sequence<int>", &["[1, 2]", "[1, 2, 3]", "cast<Sequence<int>>([])", "[2]", "range(1, 3).to_array()", "range(1, 3)"], true, true),
+    // the same elements under different representations: ranges whose bounds differ, a materialised copy, a slice
+    ("seq-int-representations", "Sequence<int>", &["range(0, 10, 3)", "range(0, 12, 3)", "[0, 3, 6, 9]", "range(10, 0, 0 - 3)", "range(10, 0 - 1, 0 - 3)", "[10, 7, 4, 1]", "range(0, 1, 5)", "range(0, 3, 7)", "[0]", "range(0, 20, 3).take(4)", "range(0, 4).map((v_x: int)->{v_x * 3})"], true, true),
+    // stacks that hold the same element *object* (a variable pushed onto both) above different elements
+    ("stack-shared-element", "Stack<int>", &["stack().push(1).push(v_shared)", "stack().push(2).push(v_shared)", "stack().push(1).push(7)", "stack().push(v_shared)", "stack().push(v_shared).push(1)", "stack().push(v_shared).push(2)", "stack().push(1).push(v_shared).tail()"], true, false),
     ("struct-diff-cmp", "V_D", &["V_D(1)", "V_D(5)", "V_D(2)", "V_D(5)", "V_D(0 - 4)", "V_D(100)"], true, true),
     ("tuple-of-struct-diff-cmp", "(V_D, int)", &["(V_D(1), 0)", "(V_D(5), 0)", "(V_D(5), 1)", "(V_D(0 - 4), 9)", "(V_D(100), 0)"], true, true),
     ("seq-of-struct-diff-cmp", "Sequence<V_D>", &["[V_D(1)]", "[V_D(5)]", "[V_D(5), V_D(1)]", "[V_D(0 - 4)]", "cast<Sequence<V_D>>([])"], true, true),
@@ -764,7 +768,7 @@ const COHERENCE_TYPES: &[(&str, &str, &[&str], bool, bool)] = &[
 ];
 
 pub fn coherence_program() -> (String, usize) {
-    let mut text = String::from("fn v_sgn(v_x: int)->int{ if(v_x < 0, 0 - 1, if(v_x > 0, 1, 0)) }\n");
+    let mut text = String::from("let v_shared = 7;\nfn v_sgn(v_x: int)->int{ if(v_x < 0, 0 - 1, if(v_x > 0, 1, 0)) }\n");
     // a user type whose cmp returns differences (any negative / positive number, not just -1 / 1)
     text.push_str("struct V_D(v_x: int)\nfn cmp(v_a: V_D, v_b: V_D)->int{ v_a::v_x - v_b::v_x }\nfn eq(v_a: V_D, v_b: V_D)->bool{ v_a::v_x == v_b::v_x }\nfn hash(v_a: V_D)->int{ v_a::v_x % 7 + 7 }\n");
     let mut body = vec![];
